@@ -202,17 +202,57 @@ def flow_model(ctx, module, cfg=None, workers=8, timeout=1200, xmx="6g", label=N
     return o, ok
 
 
+def flow_levelb(ctx, module, consts, invariants, init="Init", nxt="Next", label=None, workers=8, timeout=1800, xmx="6g"):
+    """B: a transcription of the code's algorithm, model-checked exhaustively at scaled-down parameters against the
+    textbook definition (design-level evidence; never a VIOLATION by itself, see DESIGN 1.5)."""
+    label = label or (module + "-" + "-".join(str(v) for v in consts.values()))
+    cfg = f"{BUILD}/tr/{ctx.pid}-{label}.cfg"
+    os.makedirs(os.path.dirname(cfg), exist_ok=True)
+    with open(cfg, "w") as f:
+        f.write("CONSTANTS\n" + "\n".join(f"{k} {'<-' if isinstance(v, str) and v.startswith('@') else '='} {v[1:] if isinstance(v, str) and v.startswith('@') else v}" for k, v in consts.items()))
+        f.write(f"\nINIT {init}\nNEXT {nxt}\nINVARIANTS {' '.join(invariants)}\nCHECK_DEADLOCK FALSE\n")
+    return flow_model(ctx, module, cfg=cfg, workers=workers, timeout=timeout, xmx=xmx, label=label)
+
+
+def levelb_mont(ctx):
+    inv = ["AddOK", "SubOK", "Mul2OK", "NegOK", "Div2OK", "MulOK", "SqrOK"]
+    for m in ([131] if ctx.quick() else [131, 181, 251]):
+        flow_levelb(ctx, "ImplMont", {"W": 2, "M": m}, inv)
+    flow_levelb(ctx, "ImplMontDiv", {"W": 2, "M": 181}, ["DivOK", "InvOK"], init="InitD", nxt="NextD")
+
+
+def levelb_sop(ctx):
+    for m in ([13] if ctx.quick() else [9, 11, 13, 15]):
+        flow_levelb(ctx, "ImplMontSop", {"W": 1, "M": m, "BSet": "@AllB"}, ["SopOK"], init="InitS", nxt="NextS")
+    if not ctx.quick():
+        flow_levelb(ctx, "ImplMontSop", {"W": 2, "M": 181, "BSet": "@BoundaryB"}, ["SopOK"], init="InitS", nxt="NextS", workers=12, timeout=3600)
+
+
+def levelb_jac(ctx):
+    flow_levelb(ctx, "ImplJacobian", {"P": 7, "B": 3}, ["AddOK", "SubOK", "DblOK", "NegOK", "EqOK", "AffOK", "MulOK"])
+    if not ctx.quick():
+        flow_levelb(ctx, "ImplJacobian", {"P": 13, "B": 2}, ["AddOK", "SubOK", "DblOK", "NegOK", "EqOK", "AffOK", "MulOK"], workers=12, timeout=3600)
+
+
+def levelb_sqrt(ctx):
+    for pr in ([13, 29, 37] if ctx.quick() else [13, 29, 37, 53, 61]):
+        flow_levelb(ctx, "ImplSqrt", {"P": pr, "FIXED": "TRUE"}, ["FqOK", "Fq2Sound", "Fq2Complete", "Fq2NoFalse"], workers=4)
+
+
 # ------------------------------------------------------------------------------------------------ properties
 def p_C06(ctx):
     flow_trace(ctx, "fp", 40000, 400000, chunk=6000)
+    levelb_mont(ctx)
 
 
 def p_C12(ctx):
     flow_trace(ctx, "fq2", 16000, 240000, chunk=4000)
+    levelb_sop(ctx)
 
 
 def p_C13(ctx):
     flow_trace(ctx, "conv", 10 ** 9, 10 ** 9, chunk=4000)
+    flow_levelb(ctx, "ImplMontDiv", {"W": 2, "M": 181}, ["DivOK", "InvOK"], init="InitD", nxt="NextD")
 
 
 def twist_file(ctx, npts):
@@ -222,6 +262,7 @@ def twist_file(ctx, npts):
 def p_C04(ctx):
     flow_trace(ctx, "group", 6000, 120000, chunk=500, extra=["--focus", "law"])
     flow_symwalk(ctx, acts={"add", "sub", "neg", "gen", "zero"}, mode="constructive")
+    levelb_jac(ctx)
 
 
 def p_C05(ctx):
@@ -252,6 +293,7 @@ def p_C09(ctx):
 
 def p_C14(ctx):
     flow_trace(ctx, "sqrt", 4000, 80000, chunk=400)
+    levelb_sqrt(ctx)
 
 
 def p_C11(ctx):
@@ -285,6 +327,8 @@ def p_C16(ctx):
 
 def p_C07(ctx):
     flow_programs(ctx, "fmachine", 14, 56, 1500, 12000)
+    if not ctx.quick():
+        levelb_mont(ctx)
 
 
 def p_C17(ctx):
@@ -490,12 +534,115 @@ def replay_file(path):
 
 
 def setup():
+    """Build everything that can be built ahead of time and validate the specification itself."""
+    t0 = time.time()
     ensure_overrides()
     build_harness("release")
     build_harness("dev")
     pool_file()
+    table_file()
+
+    def job(args):
+        name, mod, cfg, to = args
+        o, rc, dt = run_tlc(mod, cfg=cfg, workers=1, timeout=to, xmx="3g", tag="setup")
+        ok = rc == 0 and "No error has been found" in o
+        return name, ok, dt, o
+
+    jobs = [("MC_BigNat (Java overrides == pure TLA+ definitions)", "MC_BigNat", None, 1200),
+            ("MC_LevelA (standard's vector, orders, bilinearity, Frobenius, codec)", "MC_LevelA", None, 1200)]
+    bad = []
+    with cf.ThreadPoolExecutor(max_workers=2) as ex:
+        for name, ok, dt, o in ex.map(job, jobs):
+            print(f"[setup] {name}: {'ok' if ok else 'FAILED'} in {dt:.0f}s")
+            if not ok:
+                bad.append(name)
+                print(o[-2000:])
+    # every module parses (SANY)
+    mods = sorted(glob.glob(f"{SPEC}/*.tla") + glob.glob(f"{SPEC}/impl/*.tla"))
+    for m in mods:
+        r = sh(["java", "-cp", TLA_CP, f"-DTLA-Library={SPEC}", "tla2sany.SANY", os.path.basename(m)], cwd=os.path.dirname(m), check=False, timeout=300)
+        if "Semantic errors" in r.stdout or "Parse Error" in r.stdout or "Fatal errors" in r.stdout or r.returncode != 0:
+            bad.append("SANY " + m)
+            print(r.stdout[-1500:])
+    print(f"[setup] {len(mods)} modules parsed by SANY; total {time.time() - t0:.0f}s")
+    if bad:
+        raise ToolError("setup failed: " + ", ".join(bad))
     return 0
 
 
 def selftest():
-    raise ToolError("selftest not built yet")
+    """Demonstrates that the specification is bound to the implementation: corrupted traces / transitions are rejected,
+    exactly at the corrupted place, and the Level-B models are not vacuous."""
+    ctx = Ctx("selftest", "quick", 1)
+    results = []
+    # 1. stateful trace: corrupt one output byte, one == entry, one register id
+    out = f"{ctx.dir}/gm.ndjson"
+    run_driver("release", "gmachine", out, 1, 250, "quick", ["--pool", pool_file(), "--focus", "pair"])
+    L = [json.loads(l) for l in open(out)]
+    marks = {}
+    for e in L:
+        if e["op"] == "m.gadd" and e["seq"] > 40 and "jac" not in marks and not e["isz"]:
+            e["jac"][1][7] ^= 1; marks["jac"] = e["seq"]
+        elif e["op"] in ("m.gneg", "m.gnorm") and e["seq"] > 90 and "eqv" not in marks and e["eqv"]:
+            e["eqv"][0] = not e["eqv"][0]; marks["eqv"] = e["seq"]
+        elif e["op"] == "m.gsub" and e["seq"] > 130 and "reg" not in marks and e["a"] != e["b"]:
+            e["a"], e["b"] = e["b"], e["a"]; marks["reg"] = e["seq"]
+        elif e["op"] in ("m.pair", "m.preppair") and e["seq"] > 160 and "pair" not in marks:
+            e["out"][100] ^= 0x80; marks["pair"] = e["seq"]
+    cor = f"{ctx.dir}/gm-corrupt.ndjson"
+    with open(cor, "w") as f:
+        for e in L:
+            f.write(json.dumps(e) + "\n")
+    r0 = validate_traces([out], tag="selftest")
+    r1 = validate_traces([cor], tag="selftest")
+    got = sorted(b["seq"] for b in r1["bad"])
+    want = sorted(marks.values())
+    # a swapped register in a subtraction changes the spec's register from then on: later events may legitimately mismatch too
+    ok1 = len(r0["bad"]) == 0 and all(w in got for w in want) and min(got) == min(want)
+    results.append(("corrupted stateful trace rejected at the corrupted records", ok1, {"corrupted": marks, "rejected_first": got[:8], "clean_trace_mismatches": len(r0["bad"])}))
+    # 2. stateless trace: flip one bit of one field result
+    out2 = f"{ctx.dir}/fp.ndjson"
+    run_driver("release", "fp", out2, 1, 3000, "quick", ["--pool", pool_file(), "--focus", "nosweep"])
+    L = [json.loads(l) for l in open(out2)]
+    L[777]["out"][31] ^= 1 if isinstance(L[777]["out"], list) else 0
+    cor2 = f"{ctx.dir}/fp-corrupt.ndjson"
+    with open(cor2, "w") as f:
+        for e in L:
+            f.write(json.dumps(e) + "\n")
+    r2 = validate_traces([cor2], tag="selftest")
+    ok2 = [b["seq"] for b in r2["bad"]] == [L[777]["seq"]]
+    results.append(("one flipped bit in one of 3000 field events rejected, all others accepted", ok2, {"rejected": [b["seq"] for b in r2["bad"]]}))
+    # 3. spec -> impl: a transition with a wrong post-state must be reported by the replayer
+    o, rc, dt = run_tlc("MC_SymGroup", workers=2, timeout=600, xmx="3g", tag="selftest")
+    trans = tlc_user_lines(o, "T")
+    sel = [t for t in trans if t["act"] in ("add", "neg")][:400]
+    bad_t = None
+    for t in sel:
+        if t["act"] == "add" and t["post"][t["args"][0] - 1][0] != 0:
+            bad_t = json.loads(json.dumps(t))
+            d = bad_t["args"][0] - 1
+            bad_t["post"][d][0] = -bad_t["post"][d][0]      # wrong discrete logarithm predicted
+            bad_t["pre"] = t["pre"]
+            break
+    tf = f"{ctx.dir}/sym-bad.trans"
+    with open(tf, "w") as f:
+        f.write(json.dumps(bad_t) + "\n")
+    binp = build_harness("release")
+    sh([binp, "symwalk", "--out", f"{ctx.dir}/symbad", "--in", tf, "--table", table_file(), "--focus", "G1", "--mode", "constructive"], timeout=600)
+    rr = json.load(open(f"{ctx.dir}/symbad.result.json"))
+    ok3 = rr["mismatches"] >= 1
+    results.append(("replayer reports a transition whose predicted post-state is wrong", ok3, {"mismatches": rr["mismatches"]}))
+    # 4. Level-B models are not vacuous: the pinned (unrepaired) Fq2::sqrt algorithm is rejected by TLC
+    cfg = f"{ctx.dir}/sqrt-unfixed.cfg"
+    with open(cfg, "w") as f:
+        f.write("CONSTANTS P = 29\nFIXED = FALSE\nINIT Init\nNEXT Next\nINVARIANTS FqOK Fq2Sound Fq2Complete Fq2NoFalse\nCHECK_DEADLOCK FALSE\n")
+    o, rc, dt = run_tlc("ImplSqrt", cfg=cfg, workers=2, timeout=600, tag="selftest")
+    ok4 = "Invariant Fq2Complete is violated" in o
+    results.append(("ImplSqrt with the pinned algorithm (FIXED = FALSE) violates Fq2Complete", ok4, {}))
+    allok = True
+    for name, ok, info in results:
+        print(("PASS " if ok else "FAIL ") + name + " " + json.dumps(info))
+        allok = allok and ok
+    os.makedirs(f"{V}/evidence", exist_ok=True)
+    json.dump({"selftest": [{"name": n, "ok": ok, "info": i} for n, ok, i in results]}, open(f"{V}/evidence/selftest.json", "w"), indent=1)
+    return 0 if allok else 2
